@@ -452,6 +452,26 @@ func runC12(c *Ctx) {
 		}
 	}
 	// mutation of honest proofs
+	// CVE-2012-2459 in its mixed form: the transaction list of a block whose tree duplicates a FULL subtree at some level
+	// is extended by a copy of that subtree's leaves (same merkle root, more transactions).  In the proof the original
+	// subtree is given verbatim as ONE hash and the copy is descended into (a leaf of it is "matched"): the two equal
+	// children are one message hash and one computed hash, and all message hashes are pairwise distinct.
+	for _, nh := range [][2]int{{6, 1}, {10, 1}, {12, 2}, {20, 2}, {24, 3}, {14, 1}, {28, 2}} {
+		n, h := nh[0], uint(nh[1])
+		blk := mkBlock(n, r.Uint32())
+		var leaves [][]byte
+		for _, tx := range blk.Transactions {
+			th := tx.TxHash()
+			leaves = append(leaves, append([]byte{}, th[:]...))
+		}
+		forged := append(append([][]byte{}, leaves...), leaves[n-(1<<h):]...)
+		for _, pick := range []int{n, len(forged) - 1} { // first / last leaf of the copy
+			hs, flags := refPartial(forged, map[int]bool{pick: true})
+			extract(uint32(len(forged)), hs, flags)
+		}
+		hs, flags := refPartial(forged, map[int]bool{n - 1: true}) // the original descended into, the copy verbatim
+		extract(uint32(len(forged)), hs, flags)
+	}
 	for k := 0; k < c.Pick(150, 1500); k++ {
 		n := 1 + r.Intn(40)
 		if k%10 == 0 {
@@ -585,4 +605,54 @@ func twice(c *Ctx, op string, rounds int) {
 		}
 		c.Call(Event{"op": op, "ntx": w32(m.Transactions), "hashes": hl, "flags": ints(flags)})
 	}
+}
+
+// refPartial builds a BIP37 partial merkle tree over the given leaves for the leaves chosen BY POSITION (the library's
+// builders choose by hash, which cannot tell a duplicated leaf from its original).  Input builder only: what the real
+// extractor makes of the message is judged by the specification.
+func refPartial(leaves [][]byte, chosen map[int]bool) (hashes [][]byte, flags []byte) {
+	n := uint32(len(leaves))
+	height := uint(0)
+	for treeWidth(n, height) > 1 {
+		height++
+	}
+	var node func(h uint, pos uint32) []byte
+	node = func(h uint, pos uint32) []byte {
+		if h == 0 {
+			return leaves[pos]
+		}
+		l := node(h-1, 2*pos)
+		r := l
+		if 2*pos+1 < treeWidth(n, h-1) {
+			r = node(h-1, 2*pos+1)
+		}
+		return sha256d(append(append([]byte{}, l...), r...))
+	}
+	var bits []byte
+	var walk func(h uint, pos uint32)
+	walk = func(h uint, pos uint32) {
+		any := false
+		for i := pos << h; i < (pos+1)<<h && i < n; i++ {
+			any = any || chosen[int(i)]
+		}
+		if any {
+			bits = append(bits, 1)
+		} else {
+			bits = append(bits, 0)
+		}
+		if h == 0 || !any {
+			hashes = append(hashes, node(h, pos))
+			return
+		}
+		walk(h-1, 2*pos)
+		if 2*pos+1 < treeWidth(n, h-1) {
+			walk(h-1, 2*pos+1)
+		}
+	}
+	walk(height, 0)
+	flags = make([]byte, (len(bits)+7)/8)
+	for i, b := range bits {
+		flags[i/8] |= b << uint(i%8)
+	}
+	return hashes, flags
 }
